@@ -15,8 +15,8 @@ from concurrent.futures import ProcessPoolExecutor, as_completed
 import multiprocessing as mp
 
 ROOT = os.path.dirname(os.path.dirname(os.path.abspath(__file__)))
-EVID = os.path.join(ROOT, 'evidence')
-REPLAYS = os.path.join(ROOT, 'replays')
+EVID = os.environ.get('KV_EVIDENCE_DIR') or os.path.join(ROOT, 'evidence')
+REPLAYS = os.environ.get('KV_REPLAY_DIR') or os.path.join(ROOT, 'replays')
 FINDINGS = os.path.join(ROOT, 'known_findings.txt')
 
 LEVELS = {'exploration', 'fault_enumeration', 'model_checking', 'proof', 'translation_validation', 'other'}
